@@ -54,6 +54,8 @@ pub fn render(s: &TypeSpec) -> Option<Rendered> {
     o.push_str("            if exp { o.tally(\"eq_true\", 1); } else { o.tally(\"eq_false\", 1); }\n");
     o.push_str("            if variant_of(a) != variant_of(b) { o.tally(\"cross_variant\", 1); }\n");
     o.push_str("        }\n    }\n");
+    o.push_str("    for (i, a) in xs.iter().enumerate() {\n        let exp = oracle_eq(a, a);\n        let got = a == a;\n");
+    o.push_str("        o.check(got == exp && (a != a) == !exp, || format!(\"value {i} compared with itself (same object): educe says {got}, field-wise equality says {exp}\"));\n    }\n");
     if lawful {
         o.push_str("    for (i, a) in xs.iter().enumerate() {\n");
         o.push_str("        o.check(a == &ys[i], || format!(\"reflexivity fails for value {i}\"));\n");
@@ -100,8 +102,8 @@ pub fn behaviour() -> Behaviour {
         cfg,
         adjust: no_adjust,
         render,
-        quick: 400,
-        thorough: 8000,
+        quick: 1500,
+        thorough: 20000,
         batch: 25,
         assumptions: &["custom methods m_eq_le (asymmetric) and m_eq_mod make argument order and method identity observable"],
     }
